@@ -53,10 +53,75 @@ func genFileWrite() {
 		rows = append(rows, fmt.Sprintf("(%s, %s, %v)", coqStr(pf.name), coqStr(mode), truncates))
 		man[pf.name] = map[string]interface{}{"mode": mode, "truncates": truncates}
 	}
+	// how GetCache obtains the octets it hands to json.Unmarshal: the WHOLE file (ioutil.ReadFile / os.ReadFile, or ReadAll of
+	// the opened file itself), or something that can stop short of its end (a limited reader, a fixed buffer, one Read call)
+	var lrows []string
+	lman := map[string]interface{}{}
+	for _, pf := range files {
+		dir := pf.file[:strings.LastIndex(pf.file, "/")]
+		idx := indexPackage(dir)
+		how, whole := "none", false
+		partial := ""
+		seen := map[string]bool{}
+		var visit func(fd *ast.FuncDecl, depth int)
+		visit = func(fd *ast.FuncDecl, depth int) {
+			if fd == nil || fd.Body == nil || seen[fd.Name.Name] || depth > 3 {
+				return
+			}
+			seen[fd.Name.Name] = true
+			ast.Inspect(fd.Body, func(n ast.Node) bool {
+				c, ok := n.(*ast.CallExpr)
+				if !ok {
+					return true
+				}
+				if h := idx.callee(c, "", ""); h != nil {
+					visit(h, depth+1)
+					return true
+				}
+				sel, ok := c.Fun.(*ast.SelectorExpr)
+				if !ok {
+					return true
+				}
+				pkg, _ := sel.X.(*ast.Ident)
+				name := sel.Sel.Name
+				switch {
+				case pkg != nil && (pkg.Name == "ioutil" || pkg.Name == "os") && name == "ReadFile":
+					how, whole = pkg.Name+".ReadFile", true
+				case pkg != nil && (pkg.Name == "ioutil" || pkg.Name == "io") && name == "ReadAll" && len(c.Args) == 1:
+					if _, plain := c.Args[0].(*ast.Ident); plain {
+						how, whole = pkg.Name+".ReadAll(file)", true
+					} else {
+						how, partial = pkg.Name+".ReadAll("+exprString(c.Args[0])+")", "ReadAll of something other than the file itself"
+					}
+				case name == "LimitReader" || name == "LimitedReader" || name == "ReadFull" || name == "ReadAtLeast" || name == "CopyN" ||
+					name == "NewSectionReader" || name == "Read" || name == "ReadAt":
+					partial = exprString(c.Fun)
+				}
+				return true
+			})
+		}
+		visit(idx.funcs["GetCache"], 0)
+		if partial != "" {
+			whole = false
+			if how == "none" {
+				how = partial
+			} else {
+				how += " via " + partial
+			}
+		}
+		if how == "none" {
+			problem("%s: GetCache does not read the file in a recognised way", pf.file)
+		}
+		lrows = append(lrows, fmt.Sprintf("(%s, %s, %v)", coqStr(pf.name), coqStr(how), whole))
+		lman[pf.name] = map[string]interface{}{"how": how, "whole_file": whole}
+	}
+	manifest["fileload"] = lman
 	var b strings.Builder
-	b.WriteString(header("MemCache.Dump of ipfix/memcache.go and netflow/v9/memcache.go"))
+	b.WriteString(header("MemCache.Dump and GetCache of ipfix/memcache.go and netflow/v9/memcache.go"))
 	b.WriteString("(* cache, the call that writes the file, whether it replaces (truncates) an existing longer file *)\n")
 	b.WriteString("Definition dump_write : list (string * string * bool) :=\n  [" + strings.Join(rows, ";\n   ") + "].\n")
+	b.WriteString("\n(* cache, how GetCache reads the file, whether what it reads is the WHOLE file whatever its size *)\n")
+	b.WriteString("Definition load_read : list (string * string * bool) :=\n  [" + strings.Join(lrows, ";\n   ") + "].\n")
 	writeIfChanged("FileWrite.v", b.String())
 	manifest["filewrite"] = man
 }
